@@ -15,7 +15,7 @@ from . import c09
 import geophires_x_client.geophires_x_result as GR
 
 ID = 'C10'
-FUNCTIONS = ['geophires_x_client.geophires_x_result:GeophiresXResult.__init__', 'geophires_x_client.geophires_x_result:GeophiresXResult._get_result_field',
+FUNCTIONS = ['geophires_x.GEOPHIRESv3:main', 'geophires_x_client.geophires_x_result:GeophiresXResult.__init__', 'geophires_x_client.geophires_x_result:GeophiresXResult._get_result_field',
              'geophires_x_client.geophires_x_result:GeophiresXResult._get_data_from_profile_lines',
              'geophires_x_client.geophires_x_result:GeophiresXResult._extract_addons_style_table_data',
              'geophires_x_client.geophires_x_result:GeophiresXResult._parse_number', 'geophires_x_client.geophires_x_result:GeophiresXResult.as_csv',
@@ -30,9 +30,13 @@ META = {
                    'label must print the same (term, spec, unit) - otherwise the result depends on which element set.pop() returns - and '
                    'the returned value / unit must be that one; no field is invented or dropped; every cell (row, column) of every '
                    'profile table is the figure printed at that row and column, no dropped / shifted rows; the CSV export carries the '
-                   'same values and units.',
+                   'same values and units. JSON clause (c10json): the REAL GEOPHIRESv3.main() runs around that symbolic model (constructor, '
+                   'read_parameters and Calculate replaced, PrintOutputs = the real writer, file write captured); the real jsons/json code '
+                   'serialises the output dictionaries with proxies as provenance markers; per entry z3 proves JSON value = quantity held by '
+                   'the model when the report was written (every element of every series), unit = its current unit, nothing missing, '
+                   'nothing invented, JSON produced after the report.',
     'bounds': {t: {'configurations': 'as C09 ' + t, 'rendered widths': MODES} for t in ('quick', 'thorough')},
-    'outside': ['legacy report formats (CCUS profile, pre-LCOH labels)', 'add-on / S-DAC-GT / AGS reports', 'the JSON written next to the report (jsons serialisation of OutputParameter objects: C boundary)',
+    'outside': ['legacy report formats (CCUS profile, pre-LCOH labels)', 'add-on / S-DAC-GT / AGS reports', 'the numeric text of JSON numbers (json.dumps of a double is CPython repr: trusted)',
                 'negative-sign and thousands-separator renderings of individual figures (trusted: a rendered number contains no whitespace, bar or colon)'],
     'assumptions': ['float(text) / int(text) of a rendered figure = rnd_spec(value) (CPython)', 'a rendered figure contains no whitespace, "|", ":" or parentheses'],
     'stubs': ['geophires_x_result.open -> in-memory text; geophires_x_result.float/int -> placeholder-aware'],
@@ -301,6 +305,10 @@ def _roundtrip_once(cfg, factor, big):
 
 
 def run_unit(unit):
+    if unit.get('harness') == 'json':
+        from . import c10json
+        yield from c10json.run_unit(unit)
+        return
     kind, L, T, K, x, mode = unit['kind'], unit['L'], unit['T'], unit['K'], unit['variant'], unit['mode']
     cfg = c09.params_for(kind, L, T, K, x)
     desc = {'kind': kind, 'L': L, 'T': T, 'K': K, 'variant': x, 'rendering': mode}
@@ -431,9 +439,14 @@ def units(tier, seed):
     for (k, L, T, K, x) in c09.CONFIGS[tier]:
         for mode in MODES:
             us.append({'kind': k, 'L': L, 'T': T, 'K': K, 'variant': x, 'mode': mode})
+    from . import c10json
+    us += c10json.units(tier)
     return us
 
 
 def replay(cex):
     c = cex['config']
+    if c.get('harness') == 'json':
+        from . import c10json
+        return c10json.concrete(c09.params_for(c['kind'], c['L'], c['T'], c['K'], c['variant']))
     return concrete_roundtrip(c09.params_for(c['kind'], c['L'], c['T'], c['K'], c['variant']), c.get('rendering', 'pad'))
